@@ -192,6 +192,23 @@ def run (ctx):
                 "so when one direction times out the ports are reported as host-facing while the other direction is still in the adjacency - the spanning tree re-enables flooding on an inter-switch port" % (X, f_.name, norm(c)[:50]), (dmod, c), 'D3')
       else:
         ctx.undecided('R-OWN', iep, "host-facing ports are determined from the adjacency table", "answers from %s; its maintenance is not recognised" % sorted(reads), iep, 'D3')
+  # configuration is complete before it is consumed: in the constructor, an attribute that a property is computed from is set
+  # before that property is read (the probe sender is built from send_cycle_time, which follows the link timeout)
+  if init is not None:
+    gi_ = q.cfg_of(init)
+    props = dict((nm_, f_) for nm_, f_ in disc.methods.items() if 'property' in f_.decorators)
+    for pn_, pf_ in props.items():
+      deps = set(x.attr for x in ast.walk(pf_.node) if isinstance(x, ast.Attribute) and norm(x.value) == 'self' and isinstance(x.ctx, ast.Load))
+      reads = [q.enclosing_stmt_node(gi_, x) for x in ast.walk(init.node) if isinstance(x, ast.Attribute) and x.attr == pn_ and norm(x.value) == 'self' and isinstance(x.ctx, ast.Load)]
+      reads = [r_ for r_ in reads if r_ is not None]
+      if not reads: continue
+      for t, v, st, k in q.stores_in(init.node, nested=False):
+        if isinstance(t, ast.Attribute) and norm(t.value) == 'self' and t.attr in deps:
+          sn = q.enclosing_stmt_node(gi_, st)
+          late = [r_ for r_ in reads if sn is not None and sn in gi_.reachable(r_, exc=False) and r_ not in gi_.reachable(sn, exc=False)]
+          ctx.ob('R-ORDER', init, "`self.%s` is set before `self.%s`, which is computed from it, is read" % (t.attr, pn_), not late, "set first" if not late else
+                 "the constructor reads self.%s (`%s`) before it assigns self.%s: the probe sender is built from the default cycle time whatever link timeout was asked for, while links expire after the configured timeout - "
+                 "with a timeout shorter than the default cycle live links are announced removed and re-added over and over" % (pn_, late[0].text(50), t.attr), (dmod, st), 'D1')
   # ---- D2 writer / reader -------------------------------------------------------------------------
   wsrc = {}
   for t, v, st, k in q.stores_in(mk.node):
